@@ -19,25 +19,25 @@ inline auto make_buffer(void const* data, size_t size) noexcept -> const_buffer 
 template <typename T, etl::size_t Size>
 inline auto make_buffer(etl::array<T, Size>& array) noexcept -> mutable_buffer
 {
-    return mutable_buffer{array.data(), array.size()};
+    return mutable_buffer{array.data(), array.size() * sizeof(T)};
 }
 
 template <typename T, etl::size_t Size>
 inline auto make_buffer(etl::array<T, Size> const& array) noexcept -> const_buffer
 {
-    return const_buffer{array.data(), array.size()};
+    return const_buffer{array.data(), array.size() * sizeof(T)};
 }
 
 template <typename T, etl::size_t Size>
 inline auto make_buffer(etl::static_vector<T, Size>& vec) noexcept -> mutable_buffer
 {
-    return mutable_buffer{vec.data(), vec.size()};
+    return mutable_buffer{vec.data(), vec.size() * sizeof(T)};
 }
 
 template <typename T, etl::size_t Size>
 inline auto make_buffer(etl::static_vector<T, Size> const& vec) noexcept -> const_buffer
 {
-    return const_buffer{vec.data(), vec.size()};
+    return const_buffer{vec.data(), vec.size() * sizeof(T)};
 }
 
 } // namespace etl::experimental::net
